@@ -2,6 +2,7 @@ package rtrip
 
 import (
 	"database/sql"
+	"encoding/json"
 	"flag"
 	"fmt"
 	"math/rand"
@@ -334,13 +335,28 @@ func (m *mdef) keyToks(t map[string]string) []string {
 	return out
 }
 
+// forced, when set, fixes what run() otherwise draws: an auto-increment key, the number of records and
+// which of them carry a preset key (direction A: the preset patterns of the RoundTrip state graph).
+type forcedCase struct {
+	Presets []bool
+	Mode    string
+}
+
+var forced *forcedCase
+
 func run(e *env, r *rand.Rand, caseNo int) (hx.M, error) {
 	m := randModel(r)
+	for forced != nil && m.keymode != "auto" {
+		m = randModel(r)
+	}
 	if err := e.db.Table(m.table).AutoMigrate(reflect.New(m.typ).Interface()); err != nil {
 		return nil, fmt.Errorf("migrate: %v", err)
 	}
 	n := 1 + r.Intn(5)
 	mode := []string{"single", "slice", "ptrslice", "batches", "maps"}[r.Intn(5)]
+	if forced != nil {
+		n, mode = len(forced.Presets), forced.Mode
+	}
 	preset := m.keymode == "auto" && r.Intn(4) == 0 // all records carry a preset key, or none ...
 	// ... or the first npre of them do (slice creates: preset keys before the zero keys keep the
 	// database's numbering of the zero-key records consecutive)
@@ -356,6 +372,9 @@ func run(e *env, r *rand.Rand, caseNo int) (hx.M, error) {
 	presets := make([]bool, n)
 	for i := 0; i < n; i++ {
 		presets[i] = i < npre
+		if forced != nil {
+			presets[i] = forced.Presets[i]
+		}
 		recs = append(recs, m.newRecord(r, int64(i+1), presets[i]))
 	}
 	tx := e.db.Table(m.table)
@@ -477,6 +496,7 @@ func run(e *env, r *rand.Rand, caseNo int) (hx.M, error) {
 }
 
 func init() {
+	hx.Register("rtrip-pattern", pattern)
 	hx.Register("rtrip-random", random)
 }
 
@@ -512,6 +532,65 @@ func random(args []string) error {
 		if *only == 0 || *only == i+1 {
 			w.Emit(ev)
 		}
+	}
+	return nil
+}
+
+// pattern: direction A -- every (preset pattern, create path) state of the RoundTrip state graph inside
+// the documented domain (LastInsertId-last: preset keys only in front; emulated LastInsertId-first:
+// all or none) is created as a slice of records and read back.
+func pattern(args []string) error {
+	fs := flag.NewFlagSet("rtrip-pattern", flag.ExitOnError)
+	in := fs.String("cases", "", "ndjson {preset: [bool], path}")
+	out := fs.String("out", "", "events")
+	fs.Parse(args)
+	lines, err := hx.ReadNDJSON(*in)
+	if err != nil {
+		return err
+	}
+	w, err := hx.NewWriter(*out)
+	if err != nil {
+		return err
+	}
+	defer w.Close()
+	envs := map[string]*env{}
+	for i, l := range lines {
+		var c struct {
+			Preset []bool `json:"preset"`
+			Path   string `json:"path"`
+		}
+		if err := json.Unmarshal(l, &c); err != nil {
+			return err
+		}
+		if len(c.Preset) == 0 {
+			continue
+		}
+		npre, prefix := 0, true
+		for k, p := range c.Preset {
+			if p {
+				npre++
+				if k > 0 && !c.Preset[k-1] {
+					prefix = false
+				}
+			}
+		}
+		if (c.Path == "lastid_reversed" && !prefix) || (c.Path == "lastid_forward" && npre != 0 && npre != len(c.Preset)) {
+			continue
+		}
+		e := envs[c.Path]
+		if e == nil {
+			if e, err = newEnv(c.Path); err != nil {
+				return err
+			}
+			envs[c.Path] = e
+		}
+		forced = &forcedCase{Presets: c.Preset, Mode: []string{"slice", "ptrslice"}[i%2]}
+		ev, err := run(e, rand.New(rand.NewSource(int64(i+1))), i+1)
+		forced = nil
+		if err != nil {
+			return fmt.Errorf("case %d: %v", i, err)
+		}
+		w.Emit(ev)
 	}
 	return nil
 }
